@@ -232,6 +232,8 @@ def m_step(models, op, fam_counter):
     if kind in INPLACE and any(j != i and models[j].fam == m.fam for j in range(n_pool)):
         out['flags'].append(('frame', 'inplace-on-derived-object'))
 
+    if kind in ('getitem', 'iter') and n_c == 1:
+        out['flags'].append(('completes', 'getitem-single-condition'))
     if kind == 'getitem':
         idx = a['i']
         lst = idx if isinstance(idx, list) else [idx]
@@ -559,13 +561,14 @@ def _export_check(x):
     n_rows = n_r * (n_c * (n_c - 1) // 2)
     if len(df) != n_rows:
         return f'to_df has {len(df)} rows, expected {n_rows}'
-    data = {c: df[c].tolist() for c in df.columns}
+    order = ['dissimilarity'] + rcol + [f'{c}_1' for c in pcol] + [f'{c}_2' for c in pcol]
+    n_rd, n_pd = len(rcol), len(pcol)
     got = Counter()
-    for k in range(n_rows):
-        rd = tuple(_norm(data[c][k]) for c in rcol)
-        pa = tuple(_norm(data[f'{c}_1'][k]) for c in pcol)
-        pb = tuple(_norm(data[f'{c}_2'][k]) for c in pcol)
-        got[repr((_norm(data['dissimilarity'][k]), rd, tuple(sorted((pa, pb), key=repr))))] += 1
+    for row in df[order].to_numpy(dtype=object).tolist():
+        rd = tuple(_norm(v) for v in row[1:1 + n_rd])
+        pa = tuple(_norm(v) for v in row[1 + n_rd:1 + n_rd + n_pd])
+        pb = tuple(_norm(v) for v in row[1 + n_rd + n_pd:])
+        got[repr((_norm(row[0]), rd, tuple(sorted((pa, pb), key=repr))))] += 1
     if got != want:
         miss = list((want - got).elements())[:2]
         extra = list((got - want).elements())[:2]
@@ -645,7 +648,7 @@ _MEMO = {}
 
 
 def run_history(case):
-    """executes the history; returns {aspect: 'step k (op): message'} for the first failing step"""
+    """executes the history; returns {aspect: (step, 'step k (op): message')} for the first failing step"""
     key = json.dumps(case, sort_keys=True)
     if key in _MEMO:
         return _MEMO[key]
@@ -655,26 +658,30 @@ def run_history(case):
     reals = [_build(s, nans, models[k]) for k, s in enumerate(case['src'])]
     dead = set()
     problems = {}
+    frames = []
+    step_now = [-1]
 
     def judge(targets, where):
         for k in range(len(models)):
             if k in dead:
                 continue
-            res = _check(reals[k], models[k], nans, export=k in targets)
+            res = _check(reals[k], models[k], nans, export=k in targets and step_now[0] >= export_from)
             if not res:
                 continue
             if k in targets:
                 for asp, msg in res.items():
-                    problems.setdefault(asp, f'{where}: object #{k}: {msg}')
+                    problems.setdefault(asp, (step_now[0], f'{where}: object #{k}: {msg}'))
             else:
                 asp, msg = sorted(res.items())[0]
-                problems.setdefault('frame', f'{where}: object #{k}, which the operation was not called on, changed: {msg}')
+                frames.append((step_now[0], f'{where}: object #{k}, which the operation was not called on, changed: {msg}'))
                 dead.add(k)
 
+    export_from = case.get('export_from', -1)     # export clause judged on the results of steps >= export_from (-1: sources too)
     judge(set(range(len(models))), 'source objects')
     for step, op in enumerate(case['ops']):
         if any(a in problems for a in VIEW_ASPECTS):
             break
+        step_now[0] = step
         where = f'step {step} {op[0]}{json.dumps(op[2], sort_keys=True)} on #{op[1]}'
         st = m_step(models, op, fam)
         used = set(st['others']) | ({st['obj']} if st['obj'] is not None else set())
@@ -683,12 +690,12 @@ def run_history(case):
         try:
             new = _apply_real(st, reals)
         except Exception as e:  # noqa
-            problems.setdefault('completes', f'{where}: {type(e).__name__}: {e}')
+            problems.setdefault('completes', (step, f'{where}: {type(e).__name__}: {e}'))
             # the arguments must be intact even then
             judge(set(), where)
             break
         if len(new) != len(st['new']):
-            problems.setdefault('completes', f'{where}: returned {len(new)} objects')
+            problems.setdefault('completes', (step, f'{where}: returned {len(new)} objects'))
             break
         for k, mm in st['repl'].items():
             models[k] = mm
@@ -696,16 +703,31 @@ def run_history(case):
         models += st['new']
         reals += new
         judge(set(st['repl'].keys()) | set(range(first_new, len(models))), where)
+    if frames:
+        # objects changed behind the caller's back: the first such step outside the classes flagged by the model
+        # (input classes with a recorded defect), else the first one
+        flagged = _frame_flagged(case)
+        plain = [f for f in frames if f[0] not in flagged]
+        problems['frame'] = (plain or frames)[0]
     if len(_MEMO) > 8:
         _MEMO.clear()
     _MEMO[key] = problems
     return problems
 
 
+def _frame_flagged(case):
+    try:
+        flags, _ = dry_run(case)
+    except Inadmissible:
+        return set()
+    return {k for k, fl in enumerate(flags) if any(a == 'frame' for a, _ in fl)}
+
+
 def _mk_oracle(aspect):
     @oracle('C10/' + aspect)
     def orc(case):
-        return run_history(case).get(aspect)
+        res = run_history(case).get(aspect)
+        return None if res is None else res[1]
     orc.__name__ = 'orc_' + aspect.replace('-', '_')
     return orc
 
@@ -857,24 +879,22 @@ class Multi:
         return any(b.out_of_budget() for b in self.bds.values())
 
     def check(self, case):
-        """runs all clauses on the case; histories containing a step of a class with a known defect are additionally
-        run up to (excluding) that step under the plain class, so that the known class never hides other steps"""
+        """runs all clauses on the case.  The input class of a failure is the class the model gave to the STEP at which
+        the clause fails ('plain' when the model did not flag that step for that clause), so that a class with a recorded
+        defect never hides a failure at another step."""
         flags, _ = dry_run(case)
-        first = {}
-        for k, fl in enumerate(flags):
-            for asp, label in fl:
-                first.setdefault(asp, (k, label))
-        if first:
-            cut = min(k for k, _ in first.values())
-            if cut > 0:
-                self._run(dict(case, ops=case['ops'][:cut]), {})
-        self._run(case, {a: lab for a, (k, lab) in first.items()})
-
-    def _run(self, case, labels):
+        try:
+            res = run_history(case)
+        except Exception:  # noqa  (the oracle call below reports it)
+            res = {}
         self.n += 1
         fn = 'RDMs.' + case['ops'][-1][0] if case['ops'] else 'RDMs'
         for a in ASPECTS:
-            self.bds[a].check(ORC[a], case, labels.get(a, 'plain'), function=fn)
+            label = 'plain'
+            if a in res and 0 <= res[a][0] < len(flags):
+                label = dict(flags[res[a][0]]).get(a, 'plain')
+                fn = 'RDMs.' + case['ops'][res[a][0]][0]
+            self.bds[a].check(ORC[a], case, label, function=fn)
 
     def done(self):
         for b in self.bds.values():
@@ -962,19 +982,20 @@ def dom_exhaustive(run, thorough):
                 if variant == 1 and L == 3 and not thorough:
                     continue
 
-                def rec(prefix):
+                def rec(prefix, fresh):
                     # only maximal admissible sequences are run: every step of a sequence is checked, so all its
-                    # prefixes are covered by the same run
+                    # prefixes are covered by the same run (the export clause of a shared prefix is judged in the first
+                    # sequence through that prefix only: `export_from`)
                     extended = False
                     if len(prefix) < L:
                         for op in menu:
                             cand = prefix + [op]
                             if _admissible(dict(src=src, ops=cand)):
+                                rec(cand, len(prefix) if extended else fresh)
                                 extended = True
-                                rec(cand)
                     if not extended and prefix and not mu.out_of_budget():
-                        mu.check(dict(src=src, ops=prefix))
-                rec([])
+                        mu.check(dict(src=src, ops=prefix, export_from=fresh))
+                rec([], -1)
     return mu.done()
 
 
@@ -1153,7 +1174,7 @@ def dom_partials(run, thorough):
                     if s1 == arr[-1] or s2 == arr[0]:
                         ops += [['subset_pattern', -1, {'by': d, 'pos': [0, 1], 'cont': 'list'}],
                                 ['from_partials', None, {'objs': [-1, 0], 'desc': d, 'all': None}]]
-                    mu.check(dict(src=src, ops=ops))
+                    mu.check(dict(src=src, ops=ops, export_from=-1 if s2 == arr[0] else 0))
         mu.check(dict(src=[_src([0, 1], univ)], ops=[['from_partials', None, {'objs': [0], 'desc': 'cid', 'all': 'rev'}]]))
     return mu.done()
 
